@@ -75,7 +75,15 @@ for s in sorted(os.listdir(SD)):
             how.append("%s: %s" % (c["check"].split()[1], " + ".join(
                 (["VC " + "; ".join(sorted({v.split(" ")[2].split("/")[0].split(".")[-1] + "/" + v.split(" ")[2].split("/")[1].split("@")[0] for v in vc}))] if vc else []) +
                 (["bounded"] if bs else []))))
-    rows.append((s, ",".join(meta.get("breaks", [])), ", ".join(files).replace("src/sedpack/io/", ""), "; ".join(how) or ("NOT CAUGHT" if ev else "not evaluated")))
+    if s.startswith("keep-"):
+        exits = sorted({c["exit"] for c in meta.get("checks_run", [])})
+        verdict = ("no alarm (exit %s on %s)" % ("/".join(map(str, exits)), ", ".join(
+            c["check"].split()[1] for c in meta.get("checks_run", [])))) if ev else "not evaluated"
+        if 1 in exits:
+            verdict = "FALSE ALARM: " + verdict
+    else:
+        verdict = "; ".join(how) or ("NOT CAUGHT" if ev else "not evaluated")
+    rows.append((s, ",".join(meta.get("breaks", [])) or "-", ", ".join(files).replace("src/sedpack/io/", ""), verdict))
 print("| seed | breaks | file | caught by |\n|---|---|---|---|")
 for r in rows:
     print("| %s | %s | %s | %s |" % r)
